@@ -16,6 +16,8 @@ model), (2) correspondence: the `ast` view of input and output is given to the C
 rewrite_imports (theories/Migrate.v) which must predict the observed statement list.
 """
 import ast
+import io
+import os
 import collections
 import re
 
@@ -182,6 +184,13 @@ def compare_bodies(in_body, out_body, mapping):
             if sorted(got) != exp:
                 return (f"statement #{k} (line {node.lineno}) `{ast.unparse(node)}`: the statements found at its place "
                         f"bind {sorted(got)}, expected {exp}")
+            # a local name bound twice by one import ends up as its LAST binding
+            fin_exp, fin_got = dict(expected_bindings(node, mapping)), dict(got)
+            if fin_exp != fin_got:
+                nm = next(x for x in fin_exp if fin_exp[x] != fin_got.get(x))
+                return (f"statement #{k} (line {node.lineno}) `{ast.unparse(node)}`: after the rewritten imports the local "
+                        f"name {nm!r} is bound to {fin_got.get(nm)}, the original binds it (last) to {fin_exp[nm]} "
+                        f"[duplicate local name]")
         else:
             if j >= len(out_body):
                 return f"statement #{k} (line {node.lineno}) `{ast.unparse(node)[:80]}` is missing from the output"
@@ -369,6 +378,10 @@ DOCSTRINGS = ['"""Module doc."""', "'doc'", '"""Module doc.\n\nfrom district42 i
 
 # fixed corner inputs, always checked first
 CORNERS = [
+    # one import binding the same local name twice: the last binding is the one that counts (F36)
+    "from district42 import foo as x, schema as x\nprint(x)\n",
+    "from district42 import schema as x, represent as x, optional as x\n",
+    "from district42 import schema as x, foo as x\n",                            # harmless order: unmapped last already
     "from district42 import schema; x = 1\n",                                   # formerly F21
     "from district42 import schema; from valera import validate\ny=2\n",         # formerly F21: two imports, one line
     "import a; from district42 import schema\n",                                # formerly F21
@@ -714,10 +727,74 @@ def _short(src, n=90):
     return s if len(s) <= n else s[:n] + "...'"
 
 
+def probe_files(ctx, mapping):
+    """The file layer (migrate_v1_to_v2(directory) = what `d42 migrate` runs): every .py file it rewrites is,
+    read back the way Python reads it (PEP 263 cookie / BOM honoured), the module it was with only the imports
+    rewritten; files it does not handle and files in hidden / __pycache__ directories stay byte-identical."""
+    import contextlib
+    import shutil
+    from d42.migration.migrate_v1_to_v2 import migrate_v1_to_v2
+    root = os.path.join(ctx.workdir, "c19_files")
+    shutil.rmtree(root, ignore_errors=True)
+    body = 'from district42 import schema, optional\nCITY = "K\u00f6ln \u2013 \u00e9t\u00e9"\n\n\ndef f():\n    return schema.str\n'
+    ascii_body = 'from district42 import schema\nfrom valera import validate\nX = schema.int\n'
+    files = {
+        "plain.py": ascii_body.encode("ascii"),
+        "utf8.py": body.encode("utf-8"),
+        "pkg/inner/deep.py": ("# a comment\n" + body).encode("utf-8"),
+        "latin1.py": ("# -*- coding: latin-1 -*-\n" + body.replace("\u2013", "-")).encode("latin-1"),
+        "cp1252.py": ("# coding: cp1252\n" + body).encode("cp1252"),
+        "bom.py": b"\xef\xbb\xbf" + body.encode("utf-8"),
+        "crlf.py": ascii_body.replace("\n", "\r\n").encode("ascii"),
+        "nothing.py": b"import os\nfrom . import sibling\nY = 1\n",
+        "no_newline.py": b"from district42 import schema, from_native",
+        ".hidden/skip.py": ascii_body.encode("ascii"),
+        "pkg/__pycache__/skip.py": ascii_body.encode("ascii"),
+        "notes.txt": ascii_body.encode("ascii"),
+    }
+    for rel, data in files.items():
+        path = os.path.join(root, rel)
+        os.makedirs(os.path.dirname(path), exist_ok=True)
+        with open(path, "wb") as f:
+            f.write(data)
+    with contextlib.redirect_stdout(io.StringIO()), contextlib.redirect_stderr(io.StringIO()):
+        try:
+            migrate_v1_to_v2(root)
+            crash = None
+        except Exception as e:  # noqa
+            crash = e
+    if crash is not None:
+        ctx.violation(f"migrate_v1_to_v2(directory) raised {type(crash).__name__}", {"kind": "files", "observed": repr(crash)})
+        return 0
+    n = 0
+    for rel, data in files.items():
+        with open(os.path.join(root, rel), "rb") as f:
+            now = f.read()
+        n += 1
+        rp = {"kind": "files", "file": rel, "before_bytes": repr(data)[:300], "after_bytes": repr(now)[:300]}
+        untouchable = rel.startswith(".hidden/") or "__pycache__" in rel or not rel.endswith(".py") or rel == "nothing.py"
+        if now == data:
+            continue
+        if untouchable:
+            ctx.violation(f"the migration changed a file it must leave alone: {rel}", rp)
+            continue
+        try:
+            before_tree, after_tree = ast.parse(data), ast.parse(now)      # bytes: the declared encoding is honoured
+        except (SyntaxError, ValueError) as e:
+            ctx.violation(f"the migrated file {rel} is no longer valid Python (as Python reads the file): {e}", rp)
+            continue
+        why = compare_bodies(before_tree.body, after_tree.body, mapping)
+        if why:
+            ctx.violation(f"the migrated file {rel} is not the module it was with its imports rewritten: {why}", rp)
+    shutil.rmtree(root, ignore_errors=True)
+    return n
+
+
 def run(ctx):
     import gen_tables_migrate
     mapping, rewrite = _impl()
     r = ctx.rng
+    files_checked = probe_files(ctx, mapping)
 
     # ---- the table tie: a target that cannot be imported (the theorem then no longer checks;
     # this is the concrete failing entry)
@@ -788,6 +865,9 @@ def run(ctx):
         c.out, c.why = oracle(c.src, mapping, rewrite)
         c.cls = classify(c.src)
         if c.why is None:
+            continue
+        if c.why.endswith("[duplicate local name]") and ctx.known_finding("F36", c.src.strip()[:200]):
+            fails["duplicate_local_name"] += 1
             continue
         fails[c.cls or "unclassified"] += 1
         label = {"shared_line": " [a rewritten from-import shares a physical line with other code]",
